@@ -2,15 +2,26 @@
 (* C20: every script over the outcome alphabet for NumRuns x NumGens, with and without an observer. *)
 EXTENDS Experiment, TLC, Json
 VARIABLE emitted
+CONSTANT Lazies              \* {FALSE}: the code as found only; {FALSE, TRUE}: both admissible turnover disciplines
 CONSTANT ObserverCancels     \* TRUE: additionally explore every single notification at which the observer cancels
 Points == { <<"start", r, -1>> : r \in 0 .. NumRuns - 1 } \cup { <<"finish", r, -1>> : r \in 0 .. NumRuns - 1 }
           \cup { <<"epoch", r, g>> : r \in 0 .. NumRuns - 1, g \in 0 .. NumGens - 1 }
 Init == /\ \E s \in [1..NumRuns -> [1..NumGens -> Outcomes]], o \in BOOLEAN :
-              \E oc \in { {} } \cup (IF ObserverCancels /\ o THEN { {p} : p \in Points } ELSE {}) : InitWith(s, o, oc)
+              \E oc \in { {} } \cup (IF ObserverCancels /\ o THEN { {p} : p \in Points } ELSE {}) : \E lz \in Lazies : InitWith(s, o, oc, lz)
         /\ emitted = FALSE
+\* The statement of C20 does not say whether the observer hears of an (unsolved) generation during whose evaluation the
+\* context was cancelled: the code as found does not notify it (the epoch turnover fails on the cancelled context first,
+\* action Turnover); an implementation that records and notifies that generation and then stops at the top of the
+\* generation loop also "stops the run before the next generation".  calls_alt is the observer log of that variant; the
+\* replayer accepts either.  Everything else (evaluator log, recorded trials, returned error) is the same in both.
+CallsAlt ==
+    IF ~lazy /\ err = "cancelled" /\ evals # <<>>
+    THEN LET e == evals[Len(evals)]  c == <<"epoch", e[1], e[2]>> IN
+         IF script[e[1] + 1][e[2] + 1] = "cancel" /\ \A i \in DOMAIN calls : calls[i] # c THEN Notify(c) ELSE calls
+    ELSE calls
 Emit == /\ pc = "done" /\ ~emitted /\ emitted' = TRUE /\ UNCHANGED vars
         /\ PrintT(ToJson([runs |-> NumRuns, gens |-> NumGens, script |-> script, observer |-> observer, ocancel |-> ocancel,
-                          evals |-> evals, calls |-> calls, trials |-> trials, final_pops |-> finalPops, err |-> err]))
+                          evals |-> evals, calls |-> calls, calls_alt |-> CallsAlt, lazy |-> lazy, trials |-> trials, final_pops |-> finalPops, err |-> err]))
 MCNext == (Next /\ UNCHANGED emitted) \/ Emit
 Spec == Init /\ [][MCNext]_<<vars, emitted>> /\ WF_<<vars, emitted>>(MCNext)
 Terminates == <>(pc = "done")
